@@ -99,29 +99,29 @@ def stepOp (st : St) (op : String) : St × String :=
     | some rs =>
       match setMemTable st.hs rs with
       | some hs' => ({ st with hs := hs' }, "mt:ok")
-      | none => ({ st with dead := true }, "mt:fail")
+      | none => (st, "mt:fail")
   | ["add", reg] =>
     match parseRegs reg with
     | some [(a, l)] =>
       match addMemReg st.hs a l with
       | some hs' => ({ st with hs := hs' }, "add:ok")
-      | none => ({ st with dead := true }, "add:fail")
+      | none => (st, "add:fail")
     | _ => (st, "bad-op")
   | ["rem", reg] =>
     match parseRegs reg with
     | some [(a, l)] =>
       match remMemReg st.hs a l with
       | some hs' => ({ st with hs := hs' }, "rem:ok")
-      | none => ({ st with dead := true }, "rem:fail")
+      | none => (st, "rem:fail")
     | _ => (st, "bad-op")
   | ["lb", sz, off] =>
     match hex? sz, hex? off with
     | some sz, some off =>
       -- the message validator (`mmap_size != 0`) and `mmap(2)` (page-aligned offset) come first
-      if sz = 0 || off % 4096 != 0 then ({ st with dead := true }, "lb:closed") else
+      if sz = 0 || off % 4096 != 0 then (st, "lb:closed") else
       match setLogBase st.hs sz with
       | some hs' => ({ st with hs := hs', wins := (st.hs.nextLog, off, sz) :: st.wins }, "lb:ok")
-      | none => ({ st with dead := true }, "lb:closed")
+      | none => (st, "lb:closed")
     | _, _ => (st, "bad-op")
   | ["w", g, l] =>
     match hex? g, hex? l with
